@@ -184,7 +184,7 @@ def observe(res, src, args, word, tag):
 
 SCALE_SWEEPS = ('scale-locals/flat/33', 'scale-locals/flat/129', 'scale-locals/flat/257', 'scale-locals/recursive/33', 'scale-locals/nested/65', 'scale-params/plain/9',
                 'scale-params/plain/33', 'scale-params/plain/65', 'scale-depth/return/literal/6', 'scale-depth/break/dynamic/8', 'scale-array/dynamic/bool/257',
-                'scale-array/literal/int/129', 'scale-labels/one/11')
+                'scale-array/literal/int/129', 'scale-labels/one/11', 'scale-expr/mixed/28', 'scale-expr/calls/20', 'scale-expr/index/28', 'scale-expr/sum/12')
 
 
 def run_shard(spec):
@@ -241,7 +241,7 @@ def run_shard(spec):
     if spec['kind'] == 'scale':
         # scale grids: frames of up to 257 locals, 65 parameters, arrays of up to 1000 elements, depth 10 - every access inside its own
         # object (M-SAN, generous stack, word sizes in rotation); the frame estimate of the largest ones is swept around S*
-        for k, tag, prog, argsets in common.scale_items(('locals', 'params', 'array', 'nesting', 'globals', 'entry')):
+        for k, tag, prog, argsets in common.scale_items(('locals', 'params', 'array', 'nesting', 'globals', 'entry', 'expr')):
             if k % spec['parts'] != spec['part']:
                 continue
             j = k // spec['parts']
